@@ -64,7 +64,7 @@ package storage
 //@ ghost floor_set Bool
 
 // last_get: the value returned by the most recent successful Get (used by the election lock, C14)
-//@ ghost last_get Slice
+//@ ghost last_get Slice scratch
 //@ func KvStorage.Get(ctx, key) (val, err)
 //@   assumed
 //@   modifies ghost.last_get
